@@ -9,6 +9,9 @@ NOTE = ('Trusted: Lean 4.33 kernel; axioms within {propext, Classical.choice, Qu
         'Python generators/oracles; 64-bit usize.')
 
 CLAIMS = {
+ 'C02': dict(category='proof', technique='Lean 4 theorems on the record-framing model (header decode, frame_exact, too_large, incomplete_iff, needed_exact) + differential/oracle correspondence over all content types and boundary lengths',
+   text='Theorems header_decode/header_roundtrip, raw/encrypted_frame_exact, *_too_large, *_incomplete_iff and *_needed_exact hold for every input of the three record parsers (plaintext: plaintext_frame reduces it to the payload parser, recordWithHeader_neverIncomplete gives the only-if direction). The tie: a sweep of all 256 content types x boundary lengths x prefixes judged by the property\'s own framing oracle on the implementation and compared with the model, plus well-formed records, exact-Needed prefixes, suffixes and length-field corruptions.',
+   design_ref='DESIGN.md section 6 C02'),
  'C08': dict(category='proof', technique='Lean 4 theorem (model = flow specification, by kernel evaluation over all cells) + regenerated implementation table re-checked by decide +kernel + exhaustive cell execution',
    text='Theorem transition_eq_spec: the model of tls_state_transition equals an independently written specification of the documented flows for every state, message (any content) and direction, lifted to all finite sequences (run_eq_spec); corollaries for absorbing states, alerts, HelloRequest and sender-only. The tie is exhaustive: all 13850 cells (25 states x 2 directions x every kind incl. 256 alert severities, all 256 descriptions) are executed on the implementation every run, regenerated into Gen/States.lean and re-checked against the model by the kernel; content-independence is additionally sampled with random payloads.',
    design_ref='DESIGN.md section 6 C08'),
